@@ -137,6 +137,9 @@ def specificity(only=None):
     """Behaviour-preserving changes under /verif/benign must not raise any alarm in any check."""
     bank = os.path.join(driver.VERIF, "benign")
     props = sorted(driver.PROPS)
+    if os.environ.get("SPEC_PROPS"):
+        # restrict to the checks whose machinery changed since the last full run
+        props = [p for p in props if p in os.environ["SPEC_PROPS"].split(",")]
     bad = 0
     n = 0
     for name in sorted(os.listdir(bank)):
